@@ -609,3 +609,35 @@ def run(idx, rep, tier):
     r5(k)
     r6(k)
     r7(k)
+    # R8: MAC input layouts (= C01.R9)
+    from .c01 import r9 as c01r9
+    rep.rule('C02.R8', 'MAC input layouts (= C01.R9): HMAC over UInt32(seq) '
+             '‖ packet, UMAC over the packet with the 8-byte sequence number '
+             'as nonce, every byte of the message handed to the primitive')
+    before = len(rep.obligations)
+    c01r9(k)
+    for o in rep.obligations[before:]:
+        o.rule = 'C02.R8'
+    # R9: delayed compression starts after USERAUTH_SUCCESS, not with it
+    sus = k.func(CONN + 'send_userauth_success')
+    g9 = k.cfg(sus)
+    rep.rule('C02.R9', 'zlib@openssh.com: the server sends USERAUTH_SUCCESS '
+             'before it marks authentication complete, because send_packet '
+             'starts compressing as soon as _auth_complete is set and the '
+             'peer only starts inflating after it has read SUCCESS')
+    sends = [n for n, c in k.calls_named(sus, 'send_packet', 'self')
+             if c.args and dotted(c.args[0]) == 'MSG_USERAUTH_SUCCESS']
+    marks = [n.id for n, v in k.stores_to(sus, 'self._auth_complete')
+             if isinstance(v, ast.Constant) and v.value is True]
+    rep.check(bool(sends) and bool(marks), 'C02.R9',
+              key(sus, 'success and completion sites'), 'sites found',
+              'SUCCESS send / _auth_complete store not found',
+              sus.loc(sus.node))
+    for sn in sends:
+        early = [m for m in marks if g9.path(m, sn.id) is not None]
+        rep.check(not early, 'C02.R9', key(sus, 'SUCCESS sent uncompressed'),
+                  'MSG_USERAUTH_SUCCESS is sent before _auth_complete = True',
+                  '_auth_complete is set before MSG_USERAUTH_SUCCESS is '
+                  'sent: with zlib@openssh.com the SUCCESS packet itself is '
+                  'deflated and the peer, still before authentication, '
+                  'cannot decode it', k.loc(sus, sn))
